@@ -236,6 +236,24 @@ Proof.
 Qed.
 Print Assumptions C18_clean_post_nodes.
 
+(** ** the tie to the source text (translator, every run): the literals and comparison operators
+    ([consts_ok]) and the control-flow shape ([consts_shape_ok]) that harness/cmd/consts/c18.go reads
+    from maintain.go are the ones the model is written with -- a changed literal, operator, step
+    order or error branch makes this theorem (and, for the literals, every theorem above) fail *)
+Theorem C18_source_text_is_modelled :
+  (clean_ext_crt = spec_ext_crt /\ clean_trim_suffix = spec_ext_crt /\
+   clean_related_suffixes = [spec_ext_key; spec_ext_json] /\
+   clean_grace_cmp = CmpGe /\ clean_interval_cmp = CmpLt /\ clean_staple_cmp = CmpGt /\
+   clean_lock_name = spec_lock /\ clean_storage_key = spec_last_clean /\
+   prefix_certs = spec_certs /\ prefix_ocsp = spec_ocsp) /\
+  (clean_steps = spec_steps /\
+   clean_staple_load_error_aborts = false /\ clean_crt_errors_abort = [true; true; true] /\
+   clean_folder_delete_error_aborts = true /\ clean_list_errors_abort = [true; false; false; false] /\
+   clean_pem_type = [67; 69; 82; 84; 73; 70; 73; 67; 65; 84; 69]%N (* "CERTIFICATE" *) /\
+   clean_folder_empty_cmp = CmpEq /\ clean_folder_guard = true).
+Proof. split; [exact consts_ok | exact consts_shape_ok]. Qed.
+Print Assumptions C18_source_text_is_modelled.
+
 (** ** the run-time monitor is the theorems' statement: for every input, the observation the
     model itself produces (its result, its call log as a one-cleaner trace, its final storage)
     passes [Check.spec_ok] -- the boolean that ./check evaluates on the implementation's
